@@ -565,6 +565,24 @@ func (g *Gen) genSC(op string) *world.SCAction {
 		}
 	case "pause", "unpause":
 		a.Nonce = uint64(g.R.Intn(3000)) // selects the form of the system account address
+	case "forge-control":
+		a.Addr2 = hx(g.W.U.MetaAddrs[g.R.Intn(len(g.W.U.MetaAddrs))])
+		a.Addr = hx(g.anyAccount())
+		// (not the create-role hand-over: its second leg is by construction open to every remote caller
+		// that is not the ESDT system contract - the library cannot authenticate it - so a first-leg
+		// shaped message from another metachain contract is read as a second leg by the tree)
+		a.Fn = []string{spec.FnFreeze, spec.FnUnFreeze, spec.FnWipe, spec.FnPause, spec.FnUnPause, spec.FnSetRole, spec.FnUnSetRole}[g.R.Intn(7)]
+		a.Roles = []string{world.RolesForKind(t.Kind)[g.R.Intn(len(world.RolesForKind(t.Kind)))]}
+		a.Payload = hx(g.anyAccount())
+		if a.Fn == spec.FnCreateRoleTransfer && t.Creator != "" {
+			a.Addr = hx([]byte(t.Creator)) // aimed at the current holder
+		}
+		if hs := g.Holdings(); len(hs) > 0 && g.R.Intn(2) == 0 {
+			h := hs[g.R.Intn(len(hs))]
+			if g.W.Tok(h.Token) != nil {
+				a.Token, a.Addr = hx(h.Token), hx(h.Addr)
+			}
+		}
 	case "drop":
 		// a credit message from the metachain: mostly the ESDT system contract, sometimes another
 		// metachain contract (for which no exemption applies)
